@@ -252,6 +252,8 @@ def case_routes(spec):
         t3b = toast.create_single_tile(t3.pos, coordsys=cs)
         if np.abs(rt.corners_to_xyz(t3.corners) - rt.corners_to_xyz(t3b.corners)).max() > TOL or bool(t3.increasing) != bool(t3b.increasing):
             probs.append("toast_tile_for_point returned %s with corners/orientation that differ from create_single_tile of the same position" % (tuple(t3.pos),))
+        if tuple(t3.pos) != p:
+            probs.append("point lookup at the centre of tile %s returned position %s" % (p, tuple(t3.pos)))
         n += 1
         if len(probs) > 12:
             break
@@ -271,7 +273,7 @@ def case_deep(spec):
     probs = []
     n = 0
     for _ in range(spec["n"]):
-        d = R.randrange(9, 21)
+        d = R.randrange(9, 27)
         p = (d, R.randrange(1 << d), R.randrange(1 << d))
         if R.random() < 0.2:
             # structure: on the quadrant borders / outer edge
@@ -295,6 +297,8 @@ def case_deep(spec):
         t3b = toast.create_single_tile(t3.pos, coordsys=cs)
         if np.abs(rt.corners_to_xyz(t3.corners) - rt.corners_to_xyz(t3b.corners)).max() > TOL or bool(t3.increasing) != bool(t3b.increasing):
             probs.append("point lookup returned %s with corners unlike create_single_tile of that position" % (tuple(t3.pos),))
+        if tuple(t3.pos) != p:
+            probs.append("point lookup at the centre of tile %s returned position %s" % (p, tuple(t3.pos)))
         n += 3
         if len(probs) > 12:
             break
